@@ -1,11 +1,13 @@
 (* C08 — behaviour is identical across link APIs, payload types and serializers.
    Proved here (part (a)): the stream API feeds the message-API core exactly the request
    subsequence and the response subsequence of the envelope sequence, in order, complete, and
-   ends both with the same decode error.  Part (b) (serializer parametricity) is NOT a Coq
-   theorem: the endpoint models never inspect a payload except through the section parameters
-   marshal / unmarshal (Wire.v), and the claim is decided by the configuration sweep of the check
-   (level note). *)
-From Verif Require Import Base Stream.
+   ends both with the same decode error.  Part (b), for the argument plumbing: two serializers —
+   with possibly different wire payload types — that agree on their own round trips give every
+   handler the same arguments, closure identities included ([serializer_independence]): the
+   plumbing never looks at a payload except through marshal / unmarshal.  The same for the whole
+   endpoint (Link.v carries values abstractly) is by construction of the model; the sweep of the
+   check compares real transcripts across 16 configurations. *)
+From Verif Require Import Base Stream Wire WireProofs.
 
 Theorem stream_is_message_requests :
   forall l, req_view l = map RFrame (requests_of l) ++ match first_err l with Some n => [RFail n] | None => [] end.
@@ -28,3 +30,27 @@ Example both_and_neither :
   req_view [SEnv (mkEnv (Some 1%N) (Some 2%N)); SEnv (mkEnv None None); SErr 9%N] = [RFrame 1%N; RFail 9%N] /\
   res_view [SEnv (mkEnv (Some 1%N) (Some 2%N)); SEnv (mkEnv None None); SErr 9%N] = [RFrame 2%N; RFail 9%N].
 Proof. split; reflexivity. Qed.
+
+Theorem serializer_independence :
+  forall (value ty payload1 payload2 : Type)
+         (marshal1 : value -> payload1) (unmarshal1 : payload1 -> ty -> value) (dflt1 : payload1)
+         (marshal2 : value -> payload2) (unmarshal2 : payload2 -> ty -> value) (dflt2 : payload2) (idty : ty),
+    (forall v t, unmarshal1 (marshal1 v) t = unmarshal2 (marshal2 v) t) ->
+    (forall t, unmarshal1 dflt1 t = unmarshal2 dflt2 t) ->
+    forall ctx args ptys, length ptys = length args ->
+      map (obs1 value ty payload1 unmarshal1 idty)
+          (handler_args value payload1 ty unmarshal1 dflt1 (PCtx ty :: ptys) (request_args value payload1 marshal1 dflt1 (ctx :: args))) =
+      map (obs2 value ty payload2 unmarshal2 idty)
+          (handler_args value payload2 ty unmarshal2 dflt2 (PCtx ty :: ptys) (request_args value payload2 marshal2 dflt2 (ctx :: args))).
+Proof. exact serializer_independence_lemma. Qed.
+Print Assumptions serializer_independence.
+
+(* non-vacuity: "JSON-like" payloads (numbers doubled) and "CBOR-like" payloads (pairs) *)
+Example two_serializers :
+  map (obs1 nat nat nat (fun p t => p / 2 + t) 0)
+      (handler_args nat nat nat (fun p t => p / 2 + t) 0 [PCtx nat; PData nat 100; PFunc nat]
+                    (request_args nat nat (fun v => v * 2) 0 [CCtx nat; CData nat 1; CFunc nat 7])) =
+  map (obs2 nat nat (nat * bool) (fun p t => fst p + t) 0)
+      (handler_args nat (nat * bool) nat (fun p t => fst p + t) (0, false) [PCtx nat; PData nat 100; PFunc nat]
+                    (request_args nat (nat * bool) (fun v => (v, true)) (0, false) [CCtx nat; CData nat 1; CFunc nat 7])).
+Proof. reflexivity. Qed.
